@@ -35,12 +35,20 @@ def _init(pid):
     _MOD = _load(pid)
 
 
+_HISTORY = []  # shards this worker process has executed so far (in order)
+
+
 def _work(args):
     shard, tier, seed = args
     rec = Rec()
     rec.shard = shard
     try:
         _MOD.run_shard(shard, tier, seed, rec)
+        for v in rec.viol:
+            # what this process had executed before: needed to replay failures that depend on
+            # state hidden inside the library (class attributes, module caches)
+            v["worker_history"] = jsonable(list(_HISTORY))
+        _HISTORY.append(shard)
         return ("ok", rec.dump())
     except BaseException as e:  # harness bug, not a verdict
         return ("err", f"shard {shard!r}: {type(e).__name__}: {e}\n{traceback.format_exc()}")
@@ -72,6 +80,18 @@ def _replay_obs(mod, v, seed, tier="quick"):
                 w["note"] = (w.get("note", "") + " [reproduces only in the context of its shard: depends on earlier calls]").strip()
             if rec2.viol:
                 rec = rec2
+            elif v.get("worker_history"):
+                # last resort: everything the worker process had executed before, in order
+                for sh in v["worker_history"]:
+                    mod.run_shard(_tuplify(sh), v.get("tier", tier), seed, Rec())
+                rec3 = Rec()
+                rec3.MAXVIOL = 10 ** 6
+                mod.run_shard(_tuplify(v["shard"]), v.get("tier", tier), seed, rec3)
+                rec3.viol = [w for w in rec3.viol if w["sub"] == v["sub"] and w["cls"] == v["cls"] and w["case"] == v["case"]]
+                for w in rec3.viol:
+                    w["note"] = (w.get("note", "") + " [reproduces only after the shards its worker process had executed before: state hidden in the library]").strip()
+                if rec3.viol:
+                    rec = rec3
         except Exception:
             pass
     return sorted(
@@ -197,22 +217,22 @@ def main(argv=None):
     replay_path = None
     if fresh:
         v = fresh[0]
-        # determinism discipline: replay twice here and once in a fresh interpreter
-        o1, _ = _replay_obs(mod, v, seed, tier)
-        o2, _ = _replay_obs(mod, v, seed, tier)
-        if o1 != o2:
-            print("HARNESS-ERROR: replay of the counterexample is not deterministic")
-            print(json.dumps(v, indent=1)[:2000])
-            return 2
+        # determinism discipline: the counterexample is replayed twice, each time in a fresh
+        # interpreter (single case on fresh objects; if the failure needs what its shard did before -
+        # state leaking between calls or hidden in the library - the shard is re-run).  Both replays
+        # must reproduce it with the same observation; anything else is a harness error.
         replay_path = write_replay(pid, v, seed, tier)
         env = dict(os.environ, VERIF_SEED=str(seed))
-        p = subprocess.run(
-            [sys.executable, "-m", "xmc.run", pid, "--replay", replay_path],
-            cwd=VERIF, env=env, capture_output=True, text=True,
-        )
-        if p.returncode != 1 or not o1:
-            print("HARNESS-ERROR: counterexample does not reproduce in a fresh process "
-                  f"(in-process viol={len(o1)}, fresh rc={p.returncode})")
+        outs = []
+        for _ in range(2):
+            p = subprocess.run(
+                [sys.executable, "-m", "xmc.run", pid, "--replay", replay_path],
+                cwd=VERIF, env=env, capture_output=True, text=True,
+            )
+            outs.append((p.returncode, [l for l in p.stdout.splitlines() if l.startswith(' "observed"') or l.startswith(' "cls"')]))
+        if outs[0][0] != 1 or outs[0] != outs[1]:
+            print("HARNESS-ERROR: counterexample does not replay deterministically in fresh processes "
+                  f"(rc={outs[0][0]},{outs[1][0]})")
             print(json.dumps(v, indent=1)[:2000])
             print(p.stdout[-1500:], p.stderr[-1500:])
             return 2
